@@ -48,7 +48,10 @@ def depth_conformance(c, xml_texts):
 DECL_NAMES = {  # declaration line -> names it declares (PREAMBLE lines and DocGen's GExtra pool)
     "int i;": ["i"], "int j = 1;": ["j"], "clock x;": ["x"], "chan c;": ["c"], "broadcast chan b;": ["b"], "const int N = 2;": ["N"], "int a[3];": ["a"],
     "typedef int[0,2] id_t;": ["id_t"], "bool pos(int v) { return v > 0; }": ["pos"],
-    "int g1;": ["g1"], "clock g2;": ["g2"], "int g3 = N, g4;": ["g3", "g4"], "meta int g5;": ["g5"]}
+    "int g1;": ["g1"], "clock g2;": ["g2"], "int g3 = N, g4;": ["g3", "g4"], "meta int g5;": ["g5"],
+    "typedef struct { int u; int w; } rec_t;\nrec_t r0 = {1, 2};": ["rec_t", "r0"], "int sq(int v) { int t = v; t = t * v; return t; }": ["sq"],
+    "before_update { i = 0 }": ["@before_update"], "after_update { j = 1 }": ["@after_update"], "chan priority c < default;": ["@chan_priorities"],
+    "const int K2[2] = {1, 2};": ["K2"], "void lp() { for (k : int[0,1]) { i = k; } while (i > 0) { i--; } }": ["lp"]}
 
 
 def outside(doc, m, b):
@@ -78,9 +81,16 @@ def decl_prefix(doc, names):
     g = doc["globals"]
     out = []
     for coll in ("vars", "funs", "typedefs"):
+        seen = set()
         for v in g[coll]:
-            if v["name"] in names:
+            # the first object of a name is the preceding declaration; a faulted line that happens to re-declare the name (`chan priority c < ..` ->
+            # `chan c < ..`) adds a second, erroneous object after it, which is not a change of the first
+            if v["name"] in names and v["name"] not in seen:
+                seen.add(v["name"])
                 out.append((coll, json.dumps(v, sort_keys=True)))
+    for feat in ("before_update", "after_update", "chan_priorities"):        # declarations that set a document-level feature
+        if "@" + feat in names:
+            out.append((feat, json.dumps(doc.get(feat), sort_keys=True)))
     return sorted(out)
 
 
